@@ -2,6 +2,7 @@ package main
 
 import (
 	"fmt"
+	"go/types"
 	"strings"
 
 	"golang.org/x/tools/go/ssa"
@@ -11,43 +12,164 @@ func hookMatches(h *Hook, name string) bool {
 	if h.Pattern == name {
 		return true
 	}
-	return strings.HasSuffix(name, "."+h.Pattern) || strings.HasSuffix(name, ")."+h.Pattern)
+	if strings.HasSuffix(name, "."+h.Pattern) || strings.HasSuffix(name, ")."+h.Pattern) {
+		return true
+	}
+	// (*pkg.T).M may be written (*T).M
+	if strings.HasPrefix(name, "(") {
+		if i := strings.Index(name, "."); i > 0 && i < strings.Index(name, ")") {
+			j := strings.LastIndexAny(name[:i], "(*")
+			if name[:j+1]+name[i+1:] == h.Pattern {
+				return true
+			}
+		}
+	}
+	return false
+}
+
+func (fc *FnCtx) hookActive(h *Hook) bool {
+	if len(h.Props) > 0 && fc.eng.prop != "" && !hasProp(h.Props, fc.eng.prop) {
+		return false
+	}
+	// a hook declared in a package's contract file applies to that package's functions only
+	if h.PkgPath != "" {
+		r := fc.root()
+		if r.fn == nil {
+			return false
+		}
+		p := r.fn.Pkg
+		if p == nil && r.fn.Parent() != nil {
+			p = r.fn.Parent().Pkg
+		}
+		if p == nil && r.fn.Origin() != nil {
+			p = r.fn.Origin().Pkg
+		}
+		if p == nil || p.Pkg.Path() != h.PkgPath {
+			return false
+		}
+	}
+	if len(h.In) > 0 {
+		r := fc.root()
+		if r.fn == nil || !allowedIn(r.fn, h.In) {
+			return false
+		}
+	}
+	return true
 }
 
 // runHooks applies ghost updates and guard obligations attached to call sites.
-func (fc *FnCtx) runHooks(ci calleeInfo, in ssa.Instruction, st *State, phase string) {
+// phase: "before" (call about to happen), "after" (call returned; res bound), "go" (spawn).
+func (fc *FnCtx) runHooks(ci calleeInfo, in ssa.Instruction, st *State, phase string, res *Val) {
 	if len(fc.eng.cs.Hooks) == 0 {
 		return
 	}
 	for _, h := range fc.eng.cs.Hooks {
-		if !hookMatches(h, ci.name) {
+		if h.Kind == "store" || !hookMatches(h, ci.name) || !fc.hookActive(h) {
 			continue
 		}
-		env := fc.calleeEnv(ci, st, st)
+		if (h.Kind == "go") != (phase == "go") {
+			continue
+		}
+		if phase == "before" && h.After && !h.IsGuard {
+			continue
+		}
+		if phase == "after" && !(h.After && !h.IsGuard) {
+			continue
+		}
+		// the enclosing function's names, then the hook's own parameter names
+		// (the callee's parameter names are deliberately not in scope: they
+		// would shadow the caller's)
+		env := fc.root().env(st, fc.root().old)
 		for i, p := range h.Params {
 			if i < len(ci.args) && p != "_" {
 				env.vars[p] = ci.args[i]
 			}
 		}
-		// names of the enclosing function are visible to guards
-		for k, v := range fc.root().params {
-			if _, ok := env.vars[k]; !ok {
-				env.vars[k] = v
+		if phase == "after" && res != nil {
+			rs := ci.sig.Results()
+			var vals []Val
+			if rs.Len() == 1 {
+				vals = []Val{*res}
+			} else if rs.Len() > 1 {
+				vals = res.Fs
 			}
-		}
-		if h.Guard != nil && (phase == "before" || phase == "go") {
-			fc.oblig("guard", fmt.Sprintf("%s requires %s", ci.name, h.Guard.Text), fc.evalBool(h.Guard.Expr, env), posOf(in))
-		}
-		if len(h.Updates) > 0 && (phase == "before" || phase == "go") {
-			for _, u := range h.Updates {
-				nv := fc.evalExpr(u.Expr.Expr, env)
-				t := nv.S
-				if h.When != nil {
-					t = ite(fc.evalBool(h.When.Expr, env), t, fc.ghost(st, u.Name))
+			for i, n := range h.Results {
+				if i < len(vals) && n != "_" {
+					env.vars[n] = vals[i]
 				}
-				st.Gh[u.Name] = fc.vc.sc.define("gh_"+u.Name, fc.eng.ghostSort(u.Name), t)
 			}
 		}
+		fc.applyHook(h, env, ci.name, in, st)
+	}
+}
+
+func (fc *FnCtx) applyHook(h *Hook, env *Env, what string, in ssa.Instruction, st *State) {
+	defer func() {
+		if r := recover(); r != nil {
+			if se, ok := r.(specErr); ok {
+				panic(specErr(fmt.Sprintf("%s (in `%s`)", string(se), h.Text)))
+			}
+			panic(r)
+		}
+	}()
+	if h.IsGuard {
+		if h.Guard != nil {
+			g := fc.evalBool(h.Guard.Expr, env)
+			if h.When != nil {
+				g = implies(fc.evalBool(h.When.Expr, env), g)
+			}
+			fc.oblig("guard", fmt.Sprintf("%s %s requires %s", h.Kind, what, h.Guard.Text), g, posOf(in))
+		}
+		return
+	}
+	// all updates are evaluated in the pre-update ghost state (simultaneous assignment)
+	type upd struct {
+		name string
+		t    Term
+	}
+	var us []upd
+	for _, u := range h.Updates {
+		nv := fc.evalExpr(u.Expr.Expr, env)
+		t := nv.S
+		if ghostKind(fc.eng.ghostSort(u.Name)) == KReal {
+			t = fc.vc.coerce(nv, KReal)
+		}
+		if h.When != nil {
+			t = ite(fc.evalBool(h.When.Expr, env), t, fc.ghost(st, u.Name))
+		}
+		us = append(us, upd{u.Name, t})
+	}
+	for _, u := range us {
+		st.Gh[u.name] = fc.vc.sc.define("gh_"+u.name, fc.eng.ghostSort(u.name), u.t)
+	}
+}
+
+// storeHooks runs hooks/guards attached to stores of a struct field.
+func (fc *FnCtx) storeHooks(in *ssa.Store, st *State) {
+	if len(fc.eng.cs.Hooks) == 0 {
+		return
+	}
+	fa, ok := in.Addr.(*ssa.FieldAddr)
+	if !ok {
+		return
+	}
+	st0 := fa.X.Type().Underlying().(*types.Pointer).Elem()
+	name := typeName(st0) + "." + structOf(st0).Field(fa.Field).Name()
+	for _, h := range fc.eng.cs.Hooks {
+		if h.Kind != "store" || !hookMatches(h, name) || !fc.hookActive(h) {
+			continue
+		}
+		env := fc.env(st, fc.root().old)
+		for k, v := range fc.root().params {
+			env.vars[k] = v
+		}
+		args := []Val{fc.val(fa.X), fc.val(in.Val)}
+		for i, p := range h.Params {
+			if i < len(args) && p != "_" {
+				env.vars[p] = args[i]
+			}
+		}
+		fc.applyHook(h, env, name, in, st)
 	}
 }
 
@@ -62,7 +184,24 @@ func (fc *FnCtx) hookGhosts(cc *ssa.CallCommon, ghost func(string)) {
 		name = fc.eng.shortFn(f)
 	}
 	for _, h := range fc.eng.cs.Hooks {
-		if hookMatches(h, name) {
+		if h.Kind != "store" && hookMatches(h, name) {
+			for _, u := range h.Updates {
+				ghost(u.Name)
+			}
+		}
+	}
+}
+
+// storeHookGhosts reports ghosts updated by store hooks (for loop havoc).
+func (fc *FnCtx) storeHookGhosts(in *ssa.Store, ghost func(string)) {
+	fa, ok := in.Addr.(*ssa.FieldAddr)
+	if !ok || len(fc.eng.cs.Hooks) == 0 {
+		return
+	}
+	st0 := fa.X.Type().Underlying().(*types.Pointer).Elem()
+	name := typeName(st0) + "." + structOf(st0).Field(fa.Field).Name()
+	for _, h := range fc.eng.cs.Hooks {
+		if h.Kind == "store" && hookMatches(h, name) {
 			for _, u := range h.Updates {
 				ghost(u.Name)
 			}
